@@ -40,7 +40,7 @@ class RunPT(PropRunStream):
     oracles = ("C03",)
     quick_cases = 180
     quick_seconds = 35
-    thorough_cases = 500
+    thorough_cases = 4000
     corpus = [witness("D3' ")]
 
 
